@@ -66,6 +66,7 @@ pub struct Shared {
     pub msg_len: u32,
     pub out_len: u32,
     pub clause_len: u32,
+    pub sub_evals: u64,
     pub clause: [u8; 128],
     pub pairs: [u64; MAX_PAIRS],
     pub sites: [u32; MAX_SITES],
@@ -147,6 +148,8 @@ pub struct EngineCfg {
     pub desc: bool,
     /// consecutive steps after which the default choice rotates
     pub fair: u64,
+    /// a store / read-modify-write is followed by a second scheduling point
+    pub post_points: bool,
 }
 
 impl Default for EngineCfg {
@@ -158,6 +161,7 @@ impl Default for EngineCfg {
             vt_horizon: 1_000_000_000,
             desc: false,
             fair: 50,
+            post_points: false,
         }
     }
 }
@@ -334,6 +338,11 @@ impl Engine {
             }
             st.out.push_str(s);
         }
+    }
+
+    /// the execution evaluated `n` cases internally (sequential sweeps)
+    pub fn count(&self, n: u64) {
+        unsafe { (*self.shared).sub_evals += n };
     }
 
     pub fn labels(&self) -> Vec<(usize, &'static str, usize)> {
@@ -861,20 +870,23 @@ impl Hooks for Engine {
     }
 
     fn cell(&self, op: Op, addr: usize, loc: &'static Location<'static>) {
+        // payload cells are plain memory: in fine mode their accesses are scheduling points too, so that a
+        // value observable before it is published / after it is taken shows up as a wrong or poisoned value
+        self.point(op, addr, loc);
+    }
+
+    fn post(&self, _addr: usize, loc: &'static Location<'static>) {
         let me = me();
         if me == usize::MAX {
             return;
         }
         let mut st = self.lock();
-        let site = Self::site_id(&mut st, loc);
-        if st.branching && st.cells.len() < 100_000 {
-            st.cells.push(Access {
-                addr,
-                tid: me as u8,
-                write: matches!(op, Op::CellWrite),
-                site,
-            });
+        if !st.cfg.post_points || (st.cfg.coarse && st.th[me].bracket > 0) {
+            return;
         }
+        let site = Self::site_id(&mut st, loc);
+        st.th[me].pending = site;
+        self.resched(st, me);
     }
 
     fn now_ns(&self) -> u64 {
